@@ -1,8 +1,8 @@
 (* C06 — Block execution is deterministic and header commitments equal stored state.
    Property theorems only: each is closed by [exact <lemma>] (or a computation for witnesses) and followed
-   by [Print Assumptions].  Model: Model/C06.v   Lemmas: Proofs/C06_Acc.v, Proofs/C06_Db.v, Proofs/C06.v, Proofs/C06_Sto.v *)
+   by [Print Assumptions].  Model: Model/C06.v   Lemmas: Proofs/C06_Acc.v, Proofs/C06_Db.v, Proofs/C06.v, Proofs/C06_Sto.v, Proofs/C06_R3.v *)
 From Coq Require Import List NArith ZArith Bool Permutation Lia.
-From GQ Require Import Model.C06 Proofs.C06_Acc Proofs.C06_Db Proofs.C06 Proofs.C06_Sto.
+From GQ Require Import Model.C06 Proofs.C06_Acc Proofs.C06_Db Proofs.C06 Proofs.C06_Sto Proofs.C06_R3.
 Import ListNotations.
 Local Open Scope N_scope.
 
@@ -303,3 +303,97 @@ Proof.
   exists [], 0%Z, two_epoch_ops. destruct sto_two_epochs_differ as (A & B). rewrite A, B. discriminate.
 Qed.
 Print Assumptions storage_second_update_depends_on_layer_refuted.
+
+(* ---- 8. after the node switched its head BACK: the header of the new head describes the stored state ---- *)
+
+(* One iteration of the rollback loop of HeaderChain.SetCurrentHeader (restore ReadSpentUTXOs ++ ReadTrimmedUTXOs, then
+   delete ReadCreatedUTXOKeys, both into one batch) applied to the database the block left gives back EXACTLY the
+   parent's UTXO set - hence the parent header's UTXORoot / set size, which described that set, describe the database
+   again.  For every block of Qi operations whose created keys are new (fresh transaction hashes), INCLUDING blocks in
+   which a transaction spends an output created earlier in the same block (listed in both undo records), and with the
+   outputs the block trimmed. *)
+Theorem head_switch_restores_parent_utxo_set : forall s ops cands d',
+  db_ok (s_db s) -> forallb is_ut ops = true -> creates_new (s_db s) ops ->
+  rollback_block RestoreThenDelete ParentDb s ops cands = Some d' -> d' = s_db s.
+Proof. exact rollback_block_restores. Qed.
+Print Assumptions head_switch_restores_parent_utxo_set.
+
+(* the same for any trimmed record whose entries are entries of the parent's set (covers the repaired trim view) *)
+Theorem rollback_restores_committed_content : forall d ops tr,
+  db_ok d -> forallb is_ut ops = true -> creates_new d ops ->
+  (forall kv, In kv tr -> db_get d (fst kv) = Some (snd kv)) ->
+  let '(d1, _, _) := run_ops d ops in
+  let '(sp, cr) := undo_records d ops in
+  undo RestoreThenDelete (sp ++ tr) cr (dels tr d1) = d.
+Proof. exact rollback_restores. Qed.
+Print Assumptions rollback_restores_committed_content.
+
+(* parent {1->10, 2->20}; the block spends 1, creates 3, spends 3 again (intra-block chain), creates 4; output 2 is trimmed *)
+Example head_switch_nonvacuous :
+  let s := mkSt [(1, 10); (2, 20)] (of_content [10; 20]) 2 in
+  let ops := [Spend 1; Create 3 30; Spend 3; Create 4 40] in
+  let cands := [[(2, true)]] in
+  db_ok (s_db s) /\ forallb is_ut ops = true /\ creates_new (s_db s) ops
+  /\ undo_records (s_db s) ops = ([(1, 10); (3, 30)], [3; 4])
+  /\ option_map (fun r => s_db (fst r)) (finalize ParentDb s ops cands) = Some [(4, 40)]
+  /\ rollback_block RestoreThenDelete ParentDb s ops cands = Some [(1, 10); (2, 20)].
+Proof.
+  cbn zeta. split; [cbn; repeat split; lia|]. split; [reflexivity|]. split.
+  - intros k e [H|[H|[H|[H|[]]]]]; inversion H; reflexivity.
+  - repeat split; vm_compute; reflexivity.
+Qed.
+
+(* The order of the two loops is part of the property.  Full statement for the swapped order (refuted):
+     forall d ops, db_ok d -> forallb is_ut ops = true -> creates_new d ops ->
+       undo DeleteThenRestore (spent records) (created keys) (database after the block) = d.
+   Witness: empty parent set, a block that creates an output and spends it again: the swapped order resurrects it. *)
+Theorem swapped_rollback_order_resurrects_output_refuted :
+  exists d ops, db_ok d /\ forallb is_ut ops = true /\ creates_new d ops /\
+    let '(d1, _, _) := run_ops d ops in
+    let '(sp, cr) := undo_records d ops in
+    undo RestoreThenDelete sp cr d1 = d /\ undo DeleteThenRestore sp cr d1 = [(1, 10)] /\ d = [].
+Proof.
+  exists [], [Create 1 10; Spend 1]. split; [exact I|]. split; [reflexivity|]. split; [intros k e _; reflexivity|].
+  vm_compute. repeat split.
+Qed.
+Print Assumptions swapped_rollback_order_resurrects_output_refuted.
+
+(* strongest true statement about the swapped order: it agrees with the source order exactly when no key is in both
+   undo records, i.e. it is only wrong for outputs created and spent / trimmed inside the rolled-back block *)
+Theorem rollback_order_only_matters_for_intra_block_chains_partial : forall sp cr d, db_ok d ->
+  (forall k, In k cr -> ~ In k (map fst sp)) ->
+  undo DeleteThenRestore sp cr d = undo RestoreThenDelete sp cr d.
+Proof. exact undo_orders_agree. Qed.
+Print Assumptions rollback_order_only_matters_for_intra_block_chains_partial.
+
+(* ---- 9. the block batch shared by the TrimBlock goroutines ---- *)
+
+(* With every batch.Delete inside the trim lock (the source as it is) the batch hands exactly the trimmed keys to
+   the database: for ANY attribution of the deletes to goroutines and ANY order in which the goroutines get the
+   lock the database after the block is the one [finalize] computes (so theorems 4/4b/5 speak about what is stored). *)
+Theorem locked_trim_deletes_schedule_independent : forall d tr ks,
+  db_ok d -> Permutation (map snd ks) (map fst tr) ->
+  sched_wf [] (locked_sched ks) = true
+  /\ delks (written (run_sched empty_buf [] (locked_sched ks))) d = dels tr d.
+Proof. intros d tr ks Hok P. split; [apply locked_sched_wf|apply locked_trim_deletes; assumption]. Qed.
+Print Assumptions locked_trim_deletes_schedule_independent.
+
+Example locked_trim_deletes_nonvacuous :
+  let ks := [(5, 7); (0, 1); (5, 9); (3, 4)] in
+  written (run_sched empty_buf [] (locked_sched ks)) = [7; 1; 9; 4]
+  /\ delks [7; 1; 9; 4] [(1, 10); (4, 40); (6, 60); (7, 70); (9, 90)] = [(6, 60)].
+Proof. split; vm_compute; reflexivity. Qed.
+
+(* The lock is part of the property.  Full statement without it (refuted): for every well-formed schedule of the
+   goroutines' read-length / write-record steps the committed state describes the database.  Witness: two
+   denominations with one output each; both goroutines read the buffer length before either writes: the second record
+   overwrites the first, one Delete never reaches the database, while multiset and set size (updated under the
+   lock) account for both: UTXO root and set size no longer describe the stored set. *)
+Theorem unlocked_batch_loses_delete_refuted :
+  exists s ops cands sched s' trk,
+    commit_ok s = true /\ finalize ParentDb s ops cands = Some (s', trk) /\ commit_ok s' = true /\
+    sched_wf [] sched = true /\ ewrites sched = trk /\
+    let d1 := fst (fst (run_ops (s_db s) ops)) in
+    commit_ok (mkSt (delks (written (run_sched empty_buf [] sched)) d1) (s_acc s') (s_size s')) = false.
+Proof. exact unlocked_loses_delete. Qed.
+Print Assumptions unlocked_batch_loses_delete_refuted.
